@@ -232,7 +232,7 @@ def body_of(spec):
 
 
 def work(spec):
-    ex = Explorer(max_paths=200000, budget_s=spec.get("budget", 900), max_depth=400, timeout_ms=30000, branch_timeout_ms=10000)
+    ex = Explorer(max_paths=200000, budget_s=spec.get("budget", 1500), max_depth=400, timeout_ms=spec.get("timeout_ms", 30000), branch_timeout_ms=10000)
     ex.run(body_of(spec))
     res = worker_result(ex, samples=[dict(spec, paths=ex.stats.paths)])
     for c in res["cexs"]:
@@ -330,7 +330,7 @@ def main(tier, seed):
     # reach (about 0.5 s of solver time per path, path count growing by ~8 per decade), so tighter tolerances are covered by SLICES:
     # one point tolerance and fixed first / second exponents each; the tiny ones complete, the 4-step ones are explored under a time
     # budget and reported as hunting (non-exhaustive) -- they are there to catch changes that only bite below 1e-6.
-    tol_lo = Fraction(1, 10 ** 5) if tier == "thorough" else Fraction(1, 10 ** 4)
+    tol_lo = Fraction(1, 40000) if tier == "thorough" else Fraction(1, 10 ** 4)
     if os.environ.get("VERIF_C19_TOL"):          # sizing experiments only
         tol_lo = Fraction(os.environ["VERIF_C19_TOL"])
     specs = []
@@ -368,7 +368,7 @@ def main(tier, seed):
         specs.append({"tol_lo": "1/1000000", "tol_hi": "1/1000000", "d0": 8, "d1": 15, "hunt": True, "budget": hb})
     specs.append({"tol_lo": "1/100", "tol_hi": "1/10", "d0": "free", "nomod": True, "budget": 120})
     for d0 in ((6, 7) if th else (6,)):
-        specs.append({"tol_lo": "1/1000", "tol_first_lo": "1/100", "tol_hi": "1/10", "d0": d0, "d1": "any", "twice": True, "budget": 240})
+        specs.append({"tol_lo": "1/1000", "tol_first_lo": "1/100", "tol_hi": "1/10", "d0": d0, "d1": "any", "twice": True, "budget": 1200})
     for axis in ("X", "Y", "Z"):
         specs.append({"kind": "builder", "axis": axis})
         specs.append({"kind": "builder_types", "axis": axis})
@@ -388,6 +388,9 @@ def main(tier, seed):
                  "2^D <= (c/x)(1+2^-50), (c/x)(1-2^-50) < 2^(D+1); floor/int of a real: k <= v < k+1",
                  "builder check: get_angle_spec_from_float replaced by a symbolic step list"]
     hunting = []
+    if th:
+        for sp_ in specs:
+            sp_.setdefault("timeout_ms", 120000)
     specs.sort(key=lambda sp_: -sp_.get("budget", 0))
     for sp_, r in zip(specs, pmap(work, specs)):
         rep.merge_worker("angles", r)
